@@ -24,6 +24,7 @@ package uints
 
 import (
 	"fmt"
+	"math/big"
 	"math/bits"
 
 	"github.com/consensys/gnark/frontend"
@@ -274,7 +275,12 @@ func (bf *BinaryField[T]) Add(a ...T) T {
 	vres := bf.api.Add(va[0], va[1], va[2:]...)
 	maxBitlen := bits.Len(uint(inLen)) + tLen
 	// bitslice.Partition below checks that the input is less than 2^maxBitlen and that we have omitted carry correctly
-	vreslow, _ := bitslice.Partition(bf.api, vres, uint(tLen), bitslice.WithNbDigits(maxBitlen), bitslice.WithUnconstrainedOutputs())
+	vreslow, vreshigh := bitslice.Partition(bf.api, vres, uint(tLen), bitslice.WithNbDigits(maxBitlen), bitslice.WithUnconstrainedOutputs())
+	// with unconstrained outputs the partition is only a hint: we have to
+	// enforce that the parts recompose to the sum and that the omitted carry
+	// is small. The low part is range checked by ValueOf below.
+	rangecheck.New(bf.api).Check(vreshigh, maxBitlen-tLen)
+	bf.api.AssertIsEqual(bf.api.Add(vreslow, bf.api.Mul(vreshigh, new(big.Int).Lsh(big.NewInt(1), uint(tLen)))), vres)
 	res := bf.ValueOf(vreslow)
 	return res
 }
